@@ -268,5 +268,48 @@ def _(I, a):
     return ok(Opaque('instant', secs=secs, frac=frac))
 
 
-def mk_instant(secs):
-    return Opaque('instant', secs=secs, frac=False)
+def mk_instant(secs, nanos=0):
+    """an instant = (seconds since the epoch, leap flag `frac`, sub-second nanoseconds 0..999_999_999); ordered lexicographically"""
+    return Opaque('instant', secs=secs, frac=False, nanos=nanos)
+
+
+def _subsec(I, a, up):
+    """SubsecRound::{trunc,round}_subsecs(0) on an instant (chrono 0.4.38 round.rs: delta_down = ns % 10^9; round goes up when
+    10^9 - delta_down <= delta_down).  Other digit counts and leap-second instants are outside the stub."""
+    x, digits = a[0], a[1]
+    if is_sym(digits) or digits != 0 or getattr(x, 'frac', False) is not False:
+        raise Unsupported('subsec rounding outside the stub (digits != 0 or leap second)')
+    ns = getattr(x, 'nanos', 0)
+    if not is_sym(ns):
+        return Opaque('instant', secs=x.secs + (1 if up and ns >= 500_000_000 else 0), frac=False, nanos=0)
+    if not up:
+        return Opaque('instant', secs=x.secs, frac=False, nanos=0)
+    if I.branch(z3.UGE(ns, z3.BitVecVal(500_000_000, ns.size()))):
+        return Opaque('instant', secs=x.secs + 1, frac=False, nanos=0)
+    return Opaque('instant', secs=x.secs, frac=False, nanos=0)
+
+
+@model('<chrono::DateTime as chrono::SubsecRound>::round_subsecs')
+def _(I, a):
+    return _subsec(I, a, True)
+
+
+@model('<chrono::DateTime as chrono::SubsecRound>::trunc_subsecs')
+def _(I, a):
+    return _subsec(I, a, False)
+
+
+@model('chrono::DateTime::timestamp')
+def _(I, a):
+    x = a[0]
+    if getattr(x, 'frac', False) is not False:
+        raise Unsupported('timestamp() of a leap-second instant')
+    return x.secs
+
+
+@model('chrono::DateTime::timestamp_subsec_nanos', '<chrono::DateTime as chrono::Timelike>::nanosecond')
+def _(I, a):
+    x = a[0]
+    if getattr(x, 'frac', False) is not False:
+        raise Unsupported('nanosecond() of a leap-second instant')
+    return getattr(x, 'nanos', 0)
